@@ -238,3 +238,79 @@ impl<'a> Iterator for RTreeWrappingNearestNeighbourIter<'a, Generator> {
         None
     }
 }
+
+#[cfg(feature = "verif-hooks")]
+pub mod vh {
+    use super::*;
+
+    /// Squared distance from `point + shift` to the generator (leaf distance of the wrapping search).
+    pub fn wrapped_point_distance_2(gen: &Generator, point: &[f64; 3], shift: &[f64; 3]) -> f64 {
+        WrappingPointDistance::wrapping_distance_2(gen, point, shift)
+    }
+
+    /// Lower bound used for inner nodes: squared distance from `point + shift` to the box `[lower, upper]`.
+    pub fn wrapped_envelope_distance_2(
+        lower: [f64; 3],
+        upper: [f64; 3],
+        point: &[f64; 3],
+        shift: &[f64; 3],
+    ) -> f64 {
+        WrappingEnvelope::wrapping_distance_2(&AABB::from_corners(lower, upper), point, shift)
+    }
+
+    /// `Ord::cmp` of two heap entries with the given distances.
+    pub fn wrapper_cmp(gen: &RTreeNode<Generator>, d1: f64, d2: f64) -> ::core::cmp::Ordering {
+        let a = RTreeNodeDistanceWrapper::<Generator> {
+            node: gen,
+            distance: d1,
+            shift: [0.; 3],
+        };
+        let b = RTreeNodeDistanceWrapper::<Generator> {
+            node: gen,
+            distance: d2,
+            shift: [0.; 3],
+        };
+        a.cmp(&b)
+    }
+
+    pub fn leaf_node(gen: Generator) -> RTreeNode<Generator> {
+        RTreeNode::Leaf(gen)
+    }
+
+    /// The first `limit` entries of the neighbour sequence used to build cell `query`.
+    pub fn nn_sequence(
+        generators: &[Generator],
+        query: DVec3,
+        width: DVec3,
+        dimensionality: Dimensionality,
+        periodic: bool,
+        limit: usize,
+    ) -> Vec<(usize, Option<DVec3>)> {
+        let rtree = build_rtree(generators);
+        if periodic {
+            wrapping_nn_iter(&rtree, query, width, dimensionality).take(limit).collect()
+        } else {
+            nn_iter(&rtree, query).take(limit).collect()
+        }
+    }
+
+    /// Same as `nn_sequence` (periodic) but also returns the distance computed by the iterator.
+    pub fn wrapping_nn_sequence_with_distance(
+        generators: &[Generator],
+        query: DVec3,
+        width: DVec3,
+        dimensionality: Dimensionality,
+        limit: usize,
+    ) -> Vec<(usize, f64, [f64; 3])> {
+        let rtree = build_rtree(generators);
+        RTreeWrappingNearestNeighbourIter::new(
+            rtree.root(),
+            [query.x, query.y, query.z],
+            [width.x, width.y, width.z],
+            dimensionality,
+        )
+        .take(limit)
+        .map(|(g, d, s)| (g.id(), d, s))
+        .collect()
+    }
+}
